@@ -111,9 +111,7 @@ Section Filter.
          end).
   Proof.
     intros S cb o s evs last fin Hs. unfold parse_opened, stream_of, parse_stream in *.
-    destruct o as [|d f|].
-    - destruct (scan [] NoFault) as [lines fin0]. destruct (parse_lines NM lines) as [evs0 last0].
-      inversion Hs; subst. reflexivity.
+    destruct o as [d f|].
     - destruct (scan d f) as [lines fin0]. destruct (parse_lines NM lines) as [evs0 last0].
       inversion Hs; subst. reflexivity.
     - destruct (scan [] (FailAt 0)) as [lines fin0]. destruct (parse_lines NM lines) as [evs0 last0].
